@@ -56,10 +56,40 @@ def make_target() -> Any:
     return NumpyTarget()
 
 
-def generate(outs: dict) -> Any:
+def install_fake_jax() -> None:
+    """jax is not installed here.  The JAX target itself (generate_jax,
+    JAXPythonTarget, the jit decorator, the processing of bound arguments) is
+    pytato code like any other: it is driven with a stand-in `jax` package whose
+    `jax.numpy` is NumPy, `device_put` the identity and `jit` a decorator that
+    records that it was applied."""
+    import sys
+    import types
+    if "jax" in sys.modules and getattr(sys.modules["jax"], "_ptverif_fake", False):
+        return
+    jax = types.ModuleType("jax")
+    jax._ptverif_fake = True
+    jax.__path__ = []                 # a package
+    jax.numpy = np
+    jax.Array = np.ndarray
+    jax.device_put = lambda a: a
+
+    def jit(f: Any) -> Any:
+        def wrapped(*a: Any, **kw: Any) -> Any:
+            return f(*a, **kw)
+        wrapped._ptverif_jitted = True
+        return wrapped
+    jax.jit = jit
+    sys.modules["jax"] = jax
+    sys.modules["jax.numpy"] = np
+
+
+def generate(outs: dict, jax_mode: str | None = None) -> Any:
     import pytato as pt
     from pytato.target.python.numpy_like import generate_numpy_like
     expr = pt.transform.deduplicate(pt.make_dict_of_named_arrays(outs))
+    if jax_mode:
+        install_fake_jax()
+        return pt.generate_jax(expr, jit=jax_mode == "jit")
     return generate_numpy_like(expr, make_target(), "_pt_kernel", False, (), ())
 
 
@@ -127,7 +157,7 @@ def run_one(prog: dict) -> dict:
         res["status"] = "numpy_rejects"
         return res
     try:
-        bp = generate(outs)
+        bp = generate(outs, prog.get("jax"))
     except Exception as ex:      # noqa: BLE001
         if not_supported_error(ex):
             res["status"] = "not_supported:" + type(ex).__name__
@@ -137,6 +167,22 @@ def run_one(prog: dict) -> dict:
                                 "what": f"{type(ex).__name__}: {ex}"[:300],
                                 "where": traceback.format_exc().splitlines()[-3][:160]})
         return res
+    if prog.get("jax"):
+        # generate_jax(jit=True) decorates the entry point with jax.jit, jit=False not
+        try:
+            jitted = bool(getattr(bp._compiled_function, "_ptverif_jitted", False))
+        except Exception as ex:      # noqa: BLE001
+            res["problems"].append({"clause": "generated_source_invalid",
+                                    "exc": type(ex).__name__,
+                                    "what": f"{type(ex).__name__}: {ex}"[:300]})
+            return res
+        if jitted != (prog["jax"] == "jit"):
+            res["problems"].append({"clause": "jit_decorator", "exc": "",
+                                    "what": f"jit={prog['jax'] == 'jit'} but the entry point "
+                                            f"is {'' if jitted else 'not '}wrapped by jax.jit"})
+        if "jax.numpy" not in bp.program:
+            res["problems"].append({"clause": "jax_module", "exc": "",
+                                    "what": "the generated source does not import jax.numpy"})
     # arguments: exactly the user's reachable inputs; wrapped data pre-bound
     ph_all = {i["name"] for i in prog["inputs"] if i.get("kind", "ph") == "ph"}
     from pytato.transform import InputGatherer
@@ -258,6 +304,11 @@ def programs(tier: str) -> list[dict]:
     n = 1200 if tier == "quick" else 20000
     for k in range(n):
         progs.append(progspace.random_program(rng, f"r{k}", int(rng.integers(1, 9))))
+    # the JAX target proper (generate_jax, plain and jit) on a stand-in jax package
+    for k, p in enumerate(list(progs)):
+        if k % 6 == 0:
+            mode = "jit" if k % 12 == 0 else "plain"
+            progs.append({**p, "id": p["id"] + "|jax-" + mode, "jax": mode})
     return progs
 
 
